@@ -28,9 +28,28 @@ def _apps(fs, decl):
     return list(out.values())
 
 
-def ground_axioms(formulas, rounds=1):
+def _is(e, kind):
+    return z3.is_app(e) and e.decl().kind() == kind
+
+
+def _neg_arg(e):
+    """u if e is syntactically -u / (-1)*u, else None."""
+    if _is(e, z3.Z3_OP_UMINUS):
+        return e.arg(0)
+    if _is(e, z3.Z3_OP_MUL) and e.num_args() == 2:
+        a, b = e.arg(0), e.arg(1)
+        if z3.is_rational_value(a) and a.numerator_as_long() == -1 and a.denominator_as_long() == 1:
+            return b
+        if z3.is_rational_value(b) and b.numerator_as_long() == -1 and b.denominator_as_long() == 1:
+            return a
+    return None
+
+
+def ground_axioms(formulas, rounds=3, pairwise=False):
+    """Instances driven by the syntactic shape of the arguments (sums inside exp, products inside log)."""
     axioms = []
     fs = list(formulas)
+    have = set()
     for _ in range(rounds + 1):
         new = []
         exps = _apps(fs + axioms, F_EXP)
@@ -40,21 +59,38 @@ def ground_axioms(formulas, rounds=1):
         for e in exps:
             a = e.arg(0)
             new += [e > 0, F_LOG(e) == a]
+            if _is(a, z3.Z3_OP_ADD):
+                prod = None
+                for k in range(a.num_args()):
+                    term = a.arg(k)
+                    neg = _neg_arg(term)
+                    factor = (1 / F_EXP(neg)) if neg is not None else F_EXP(term)
+                    prod = factor if prod is None else prod * factor
+                new.append(e == prod)
+            elif _is(a, z3.Z3_OP_SUB) and a.num_args() == 2:
+                new.append(e == F_EXP(a.arg(0)) / F_EXP(a.arg(1)))
+            else:
+                neg = _neg_arg(a)
+                if neg is not None:
+                    new.append(e * F_EXP(neg) == 1)
         for l in logs:
             a = l.arg(0)
             new += [z3.Implies(a > 0, F_EXP(l) == a), z3.Implies(a == 1, l == 0)]
-        for i, e1 in enumerate(exps):
-            for e2 in exps[i + 1:]:
-                a, b = e1.arg(0), e2.arg(0)
-                new += [z3.Implies(a == b, e1 == e2), (a < b) == (e1 < e2)]
-        for i, l1 in enumerate(logs):
-            for l2 in logs[i:]:
-                a, b = l1.arg(0), l2.arg(0)
-                new += [z3.Implies(z3.And(a > 0, b > 0), F_LOG(a * b) == l1 + l2)]
-                if l1 is not l2:
-                    new += [z3.Implies(z3.And(a > 0, b > 0), F_LOG(a / b) == l1 - l2),
-                            z3.Implies(z3.And(a > 0, b > 0), F_LOG(b / a) == l2 - l1),
-                            z3.Implies(z3.And(a > 0, b > 0), (a < b) == (l1 < l2))]
+            if _is(a, z3.Z3_OP_MUL) and a.num_args() == 2:
+                u, v = a.arg(0), a.arg(1)
+                new += [z3.Implies(z3.And(u > 0, v > 0), l == F_LOG(u) + F_LOG(v))]
+            if _is(a, z3.Z3_OP_DIV) and a.num_args() == 2:
+                u, v = a.arg(0), a.arg(1)
+                new += [z3.Implies(z3.And(u > 0, v > 0), l == F_LOG(u) - F_LOG(v))]
+        if pairwise:
+            for i, e1 in enumerate(exps):
+                for e2 in exps[i + 1:]:
+                    a, b = e1.arg(0), e2.arg(0)
+                    new += [(a < b) == (e1 < e2)]
+            for i, l1 in enumerate(logs):
+                for l2 in logs[i + 1:]:
+                    a, b = l1.arg(0), l2.arg(0)
+                    new += [z3.Implies(z3.And(a > 0, b > 0), (a < b) == (l1 < l2))]
         for s in sqrts:
             a = s.arg(0)
             new += [z3.Implies(a >= 0, z3.And(s >= 0, s * s == a))]
@@ -62,9 +98,7 @@ def ground_axioms(formulas, rounds=1):
             a, b = p.arg(0), p.arg(1)
             new += [z3.Implies(b == 1, p == a), z3.Implies(b == 0, p == 1), z3.Implies(b == 2, p == a * a),
                     z3.Implies(a > 0, z3.And(p > 0, F_LOG(p) == b * F_LOG(a))),
-                    z3.Implies(b == -1, p * a == 1)]
-        # dedupe
-        have = {x.get_id() for x in axioms}
+                    z3.Implies(b == -1, p * a == 1), z3.Implies(b == 3, p == a * a * a)]
         added = False
         for x in new:
             if x.get_id() not in have:
